@@ -72,10 +72,19 @@ def make_cases(rng, n):
     import os
     cases = []
     tries = 0
-    cdir = common.workdir("c20")
-    for k, b in COMPONENTS.items():
-        with open(os.path.join(cdir, k + ".qml"), "w") as f:
-            f.write("import qmluic.QtWidgets\n%s {}\n" % b)
+    root = common.workdir("c20")
+    made = set()
+
+    def group_dir(tries):
+        # translating a document parses every QML file of its directory: keep the directories small (120 documents each)
+        d = os.path.join(root, "g%d" % (tries // 180))
+        if d not in made:
+            os.makedirs(d, exist_ok=True)
+            for k, b in COMPONENTS.items():
+                with open(os.path.join(d, k + ".qml"), "w") as f:
+                    f.write("import qmluic.QtWidgets\n%s {}\n" % b)
+            made.add(d)
+        return d
     while len(cases) < n and tries < n * 4:
         tries += 1
         use_comps = (tries % 3 == 0)
@@ -84,7 +93,7 @@ def make_cases(rng, n):
                    max_bindings=rng.choice((2, 4, 6)), components=(COMPONENTS if use_comps else None))
         base = g.make(type_name="Main%d" % tries if use_comps else "MyType")
         if use_comps:
-            base.path = os.path.join(cdir, "Main%d.qml" % tries)
+            base.path = os.path.join(group_dir(tries), "Main%d.qml" % tries)
         attach_layout_props(rng, base)
         base.print(None)
         kind = KINDS[len(cases) % len(KINDS)]
